@@ -140,6 +140,8 @@ def _check_map_cfg(cfg, probes):
 
 def gen_cfg(rng):
     n = rng.randint(1, 3)
+    # identifiers are numbers; a later one may be a PREFIX of an earlier one's spelling (12 then 1, 10 then 1, 21 then 2): still different mappings
+    ids = rng.choice([[1, 2, 3], [12, 1, 2], [10, 1, 100], [21, 2, 212], [3, 2, 1]])
     cfg = []
     used = set()
     for i in range(n):
@@ -156,7 +158,7 @@ def gen_cfg(rng):
             if len(banks) == sum(c - a + 1 for a, c in rngs) and not (banks & used):
                 used |= banks
                 mask = rng.choice([0x8000, 0x10000])
-                cfg.append({"id": i + 1, "lo": lo, "hi": hi, "mask": mask, "alo": (0x10000 - mask) if (mask == 0x8000 or rng.random() < 0.6) else 0x8000, "ram": rng.random() < 0.25, "mirror": mirror, "style": rng.choice(["hex", "hex", "dec", "bin"])})
+                cfg.append({"id": ids[i], "lo": lo, "hi": hi, "mask": mask, "alo": (0x10000 - mask) if (mask == 0x8000 or rng.random() < 0.6) else 0x8000, "ram": rng.random() < 0.25, "mirror": mirror, "style": rng.choice(["hex", "hex", "dec", "bin"])})
                 break
     return cfg
 
